@@ -293,11 +293,9 @@ namespace
         }
         for(int ir = 0; ir < D; ++ir) for(int jc = 0; jc < D; ++jc)
         {
-          if(D == 3 && ((ir + 2 * jc) % 3 == 1)) continue; // a subset of the 9 blocks in 3D
           Assembly::Common::DuDvOperator op(ir, jc);
           check_operator("dudv" + std::to_string(ir) + std::to_string(jc), op, [ir, jc](const Poly<D>& u, const Poly<D>& v)
             { Poly<D> r = u.diff(ir) * v.diff(jc); if(ir == jc) r += grad_dot<D>(u, v); return r; }, gd, false, true);
-          if(ir != jc || ir == 0)
           {
             Assembly::Common::DivDivOperator op2(ir, jc);
             check_operator("divdiv" + std::to_string(ir) + std::to_string(jc), op2, [ir, jc](const Poly<D>& u, const Poly<D>& v)
